@@ -33,3 +33,13 @@ package dns
 //@   assert at "c <- &Envelope{in.Answer, nil}@1" first: q.Id == in.Id && in.Rcode == 0 && callres("isSOAFirst") && len(in.Answer) == 1
 //@   assert at "c <- &Envelope{in.Answer, nil}@2" last: q.Id == in.Id && callres("isSOALast") && !first
 //@   assert at "c <- &Envelope{in.Answer, nil}@3" more: q.Id == in.Id && !callres("isSOALast") && !first
+
+// IXFR reader: same admission rules on every message; the transfer ends with the single-SOA "up to date"
+// answer, or when the server's serial has been seen twice in AXFR style or three times in IXFR style
+//@ func (*Transfer).inIxfr [C15]
+//@   opt no-safety
+//@   requires t != nil && q != nil
+//@   assert at "c <- &Envelope{in.Answer, nil}@1" uptodate: q.Id == in.Id && in.Rcode == 0 && n == 0 && callres("isSOAFirst") && qser >= serial
+//@   assert at "c <- &Envelope{in.Answer, nil}@2" done: q.Id == in.Id && in.Rcode == 0 && ((axfr && n == 2) || n == 3)
+//@   assert at "c <- &Envelope{in.Answer, nil}@3" more: q.Id == in.Id && in.Rcode == 0 && n < 3 && !(axfr && n == 2)
+//@   loop * invariant 0 <= n && n < 3 && !(axfr && n == 2)
